@@ -39,7 +39,7 @@ ASSUMPTIONS = [
   'module paths are taken from Module.path (naming is C02 territory); the check is that the key is the stated function of (seed, stream, path, count)',
   'distinctness is demanded modulo the derivation\'s own 32-bit hash truncation: positions whose model hashes coincide are counted in a probe and skipped',
 ]
-PROBES = ['nnx_runs', 'linen_runs', 'missing_stream_default', 'split_ctx_raises', 'restore_resumes', 'reseed', 'jit_draw', 'vmap_draw', 'clone_predicted_duplicate', 'linen_fallback_params', 'separator_on', 'separator_off', 'edit_invariance_checked', 'hash_collision_skipped', 'init_keys_checked', 'linen_jit_child', 'linen_method_runs', 'plain_and_jitted_method_share_child', 'reseed_several_same_name']
+PROBES = ['nnx_runs', 'linen_runs', 'missing_stream_default', 'split_ctx_raises', 'restore_resumes', 'reseed', 'jit_draw', 'vmap_draw', 'clone_predicted_duplicate', 'linen_fallback_params', 'separator_on', 'separator_off', 'edit_invariance_checked', 'hash_collision_skipped', 'init_keys_checked', 'linen_jit_child', 'linen_method_runs', 'plain_and_jitted_method_share_child', 'reseed_several_same_name', 'linen_loop_runs', 'draws_in_loop_predicate_and_body']
 
 
 def setup_worker(w, tier):
@@ -60,6 +60,8 @@ def generate(rs, tier):
     return gen_nnx(g)
   if r < 0.62:
     return gen_methods(g)
+  if r < 0.67:
+    return dict(engine='linenworld', knobs=dict(kind='linen_loop', separator=g.random() < 0.6, trips=g.randrange(0, 4), split=g.random() < 0.7, n_cond=g.choice([1, 1, 2]), n_body=g.choice([0, 1, 1, 2]), pre=g.random() < 0.6, post=g.random() < 0.7, seed=g.randrange(4)), ops=[])
   return gen_linen(g)
 
 
@@ -609,6 +611,66 @@ class MethodsRun:
       self.log.add(oi, 'script', len(calls))
 
 
+class LoopRun:
+  """Keys drawn inside nn.while_loop: predicate and body are traced, so the draws are observed at run time through
+  jax.debug.callback.  With the stream split per iteration every draw of one apply is a different key; with the stream
+  broadcast the keys repeat per iteration by construction, but predicate, body and the code around the loop still
+  never share one.  Same program, same seed -> same keys."""
+
+  def __init__(self, plan, res, log):
+    self.plan, self.res, self.log = plan, res, log
+    self.compared = 0
+
+  def once(self):
+    k = self.plan['knobs']
+    rec = []
+
+    def note(tag):
+      return lambda v: rec.append((tag, np.asarray(v).tobytes()))
+
+    class Loop(nn.Module):
+      @nn.compact
+      def __call__(self, x):
+        if k['pre']:
+          rec.append(('pre', np.asarray(jax.random.key_data(self.make_rng('loop'))).tobytes()))
+
+        def cond_fn(m, c):
+          for j in range(k['n_cond']):
+            jax.debug.callback(note(f'cond{j}'), jax.random.key_data(m.make_rng('loop')))
+          return c['i'] < k['trips']
+
+        def body_fn(m, c):
+          for j in range(k['n_body']):
+            jax.debug.callback(note(f'body{j}'), jax.random.key_data(m.make_rng('loop')))
+          return {'i': c['i'] + 1}
+
+        nn.while_loop(cond_fn, body_fn, self, {'i': jnp.zeros((), jnp.int32)}, split_rngs={'loop': k['split']})
+        if k['post']:
+          rec.append(('post', np.asarray(jax.random.key_data(self.make_rng('loop'))).tobytes()))
+        return x
+
+    Loop().apply({}, jnp.zeros(()), rngs={'loop': jax.random.key(50 + k['seed'])})
+    jax.effects_barrier()
+    return rec
+
+  def run(self):
+    k = self.plan['knobs']
+    self.res.probe('linen_loop_runs')
+    a = self.once()
+    b = self.once()
+    if a != b:
+      raise Violation('keys-not-deterministic', 'nn.while_loop program: the same program with the same seed drew different keys on its second run')
+    seen = {}
+    for tag, kb in a:
+      if kb in seen and (k['split'] or seen[kb] != tag):
+        raise Violation('key-reused', f'nn.while_loop(split_rngs={k["split"]}, trips={k["trips"]}): draws {seen[kb]!r} and {tag!r} of one apply received the same key')
+      seen[kb] = tag
+      self.compared += 1
+    if any(t.startswith('cond') for t, _ in a) and any(t.startswith('body') for t, _ in a):
+      self.res.probe('draws_in_loop_predicate_and_body')
+    self.log.add('loop', len(a))
+
+
 def execute(plan):
   res = Result()
   log = kernel.Log()
@@ -626,9 +688,9 @@ def execute(plan):
           w.step(oi, op)
       finally:
         compared = w.compared
-    elif k['kind'] == 'linen_methods':
+    elif k['kind'] in ('linen_methods', 'linen_loop'):
       flax.config.update('flax_fix_rng_separator', k['separator'])
-      lr = MethodsRun(plan, res, log)
+      lr = (MethodsRun if k['kind'] == 'linen_methods' else LoopRun)(plan, res, log)
       try:
         lr.run()
       finally:
